@@ -86,6 +86,13 @@ def value_class(v: Any) -> str:
     return type(v).__name__
 
 
+class CallbackFailed(AnalysisError):
+    def __init__(self, label, outs):
+        self.label = label
+        self.outs = outs
+        super().__init__(f"callback {label} does not return on a single path: {[(o.kind, o.exc, o.value if o.kind == 'raise' else '', o.assumptions) for o in outs][:3]}")
+
+
 @dataclass
 class Res:
     label: str
@@ -107,7 +114,8 @@ class Res:
 
 
 class AbstractTransformer:
-    def __init__(self, env: models.Env, include_position: bool = False, include_comments: bool = False, rounds: int = 2, reps: int = 3):
+    def __init__(self, env: models.Env, include_position: bool = False, include_comments: bool = False, rounds: int = 2, reps: int = 3, deep: bool = False):
+        self.deep = deep
         self.env = env
         self.G = env.G
         self.pos = include_position
@@ -220,6 +228,13 @@ class AbstractTransformer:
 
         return self.I.explore(q, make, observe=lambda made, out: made)
 
+    def call1(self, label: str, make_children: Callable[[], list]) -> Any:
+        """Result of a callback that must return on exactly one path."""
+        outs = self.eval_callback(label, make_children)
+        if len(outs) != 1 or outs[0].kind != "return":
+            raise CallbackFailed(label, outs)
+        return outs[0].value
+
     # -- bottom-up --------------------------------------------------------------------------------
 
     def unroll(self, shape: tuple, label: str) -> list[tuple]:
@@ -236,6 +251,13 @@ class AbstractTransformer:
                 if kinds:
                     opts.append((kinds[0], kinds[-1]))
                     opts.append((kinds[0], kinds[0]))
+                    if self.deep:
+                        # thorough: every ordered pair of kinds and a triple
+                        for k1 in kinds:
+                            for k2 in kinds:
+                                opts.append((k1, k2))
+                        opts.append((kinds[0], kinds[-1], kinds[0]))
+                        opts = list(dict.fromkeys(opts))
                 seqs = [s + o for s in seqs for o in opts]
             else:
                 seqs = [s + (el,) for s in seqs]
@@ -309,14 +331,14 @@ class AbstractTransformer:
 
     def _eval_label(self, lab: str, rnd: int) -> None:
         seen_cls = {(r.children_classes) for r in self.results.get(lab, [])}
-        budget = 1500
+        budget = 6000 if self.deep else 1500
         for shape in sorted(self.shapes.get(lab, ()), key=seq_str):
             for kinds in self.unroll(shape, lab):
                 optlists = [self.child_options(k) for k in kinds]
                 if any(not o for o in optlists):
                     continue  # a child label has no result yet (next round)
                 # expression-level operands: only token-valued children are in scope
-                combos = itertools.islice(itertools.product(*optlists), 600)
+                combos = itertools.islice(itertools.product(*optlists), 3000 if self.deep else 600)
                 for combo in combos:
                     def make_children(combo=combo):
                         return [mk() for _, mk in combo]
